@@ -337,7 +337,7 @@ def evans_jobs(t):
         for lab in ("fwd", "rev", "mix"):
             jobs.append(("projection", n, lab, to))
             jobs.append(("idempotence", n, lab, to))
-    for n in ([3, 4] if t == "quick" else [3, 4, 5]):
+    for n in [3, 4]:  # n = 5 (70-node universe) stays 'unknown' after 10 minutes: not worth a thorough slot
         for lab in ("fwd", "rev"):
             jobs.append(("api", n, lab, to))
     return sorted(jobs, key=lambda j: -j[1] if j[0] != "api" else -2 * j[1])
